@@ -217,7 +217,7 @@ class Refs(Suite):
     name = "refs"
     go_cmd = "c36"
     coq_imports = "From GoGit Require Import Model.RefSpec Model.RevList Model.PushRules Model.FetchProto."
-    quick_n = 130
+    quick_n = 110
     thorough_n = 2000
     coq_chunk = 90
     BUCKETS = [(5, "random"), (2, "prune"), (1, "hash"), (1, "invalid"), (2, "shallow")]
@@ -552,7 +552,7 @@ class Wire(Suite):
     reference and every other pairing through the harness / the git binary, and compares the client repositories."""
     name = "wire"
     go_cmd = "c36"
-    quick_n = 3
+    quick_n = 2
     thorough_n = 30
 
     def gen(self, rng, n, tier):
@@ -717,7 +717,7 @@ class Deepen(Suite):
     shallow file must be git's."""
     name = "deepen"
     go_cmd = "c36"
-    quick_n = 6
+    quick_n = 4
     thorough_n = 72
 
     KEY = [("git", 2, "root"), ("gogit", 2, "max"), ("git", 2, "beyond"), ("gogit", 2, "root"), ("git", 2, "max"), ("gogit", 2, "beyond")]
@@ -858,7 +858,7 @@ class V2Serve(Suite):
     name = "v2serve"
     go_cmd = "c36"
     coq_imports = "From GoGit Require Import Model.RevList Model.FetchProto."
-    quick_n = 70
+    quick_n = 50
     thorough_n = 1200
     coq_chunk = 35
 
